@@ -637,3 +637,14 @@ def contracts():
         c.prop = PROP
         c.clause_prefixes = ["argument "]
     return _c11_base5() + extra
+
+
+# "class creation, like add_parameter": the runtime addition goes through the same inheritance step
+_c11_base6 = contracts
+
+
+def contracts():
+    from contracts import c13 as _c13
+    c = _c13.add_parameter_contract()
+    c.prop = PROP
+    return _c11_base6() + [c]
